@@ -105,7 +105,9 @@ class Scratch:
                          % os.path.join(VERIF, "overlay", "spec", "mod.rs"))
                 text += ('#[cfg(all(asefile_verif, test))]\n#[path = "%s"]\nmod verif_exec;\n'
                          % os.path.join(VERIF, "overlay", "exec", "mod.rs"))
-                self.appended += 2
+                text += ('#[cfg(asefile_verif_sendsync)]\n#[path = "%s"]\nmod verif_send_sync;\n'
+                         % os.path.join(VERIF, "overlay", "exec", "send_sync.rs"))
+                self.appended += 3
             self._assert_add_only(orig, text, p)
             open(p, "w").write(text)
 
